@@ -218,9 +218,11 @@ func c12RunSite(cs c12Case) (names []string, shared *scen.RT, o *scen.StartObs) 
 			}
 		}
 	}
+	var node2 *scen.N
 	if cs.Site == "processors" {
-		node = &scen.N{Nm: "anode", Q: "qa"}
-		comps = append(comps, node)
+		// two nodes on a cycle, so that the early-reference callbacks run as well
+		node, node2 = &scen.N{Nm: "anode", Q: "qa"}, &scen.N{Nm: "bnode", Q: "qb"}
+		comps = append(comps, node, node2, scen.NewTagScanner(map[string]map[string]string{"anode": {"S0": "bnode"}, "bnode": {"S0": "anode"}}))
 	}
 	if cs.Site == "loaders" {
 		// loaders are sequenced in the order they were added: apply the permutation there
@@ -239,7 +241,7 @@ func c12RunSite(cs c12Case) (names []string, shared *scen.RT, o *scen.StartObs) 
 		}
 	}
 	if node != nil {
-		reg = append(reg, node)
+		reg = append(reg, comps[len(comps)-3:]...)
 	}
 	sp := scen.StartSpec{Ch: envx.Fixed("", nil), Comps: reg, Opts: opts, User: user, Base: base}
 	// the participants need the runtime that Start creates: give them a shared log first
@@ -249,6 +251,7 @@ func c12RunSite(cs c12Case) (names []string, shared *scen.RT, o *scen.StartObs) 
 	}
 	if node != nil {
 		scen.SetRT(node, shared)
+		scen.SetRT(node2, shared)
 	}
 	o = scen.Start(sp)
 	return
@@ -300,8 +303,8 @@ func c12Sites(c *core.Ctx) {
 			var classes, orders []int
 			seen := map[string]int{}
 			for _, e := range shared.Log {
-				if !strings.HasPrefix(e, prefix) {
-					continue
+				if !strings.HasPrefix(e, prefix) || strings.HasSuffix(e, ":bnode") {
+					continue // per component: the callbacks for anode
 				}
 				nm := strings.SplitN(strings.TrimPrefix(e, prefix), ":", 2)[0]
 				seen[nm]++
@@ -327,8 +330,12 @@ func c12Sites(c *core.Ctx) {
 		if !check(prefix) {
 			return
 		}
-		if cs.Site == "processors" && !check("after:") {
-			return
+		if cs.Site == "processors" {
+			for _, pf := range []string{"after:", "binst:", "ainst:", "props:", "early:"} {
+				if !check(pf) {
+					return
+				}
+			}
 		}
 		c.Outcome(fmt.Sprintf("%s/ok/len=%d", cs.Site, len(cs.Seq)))
 		if c.S.Programs%700 == 1 {
